@@ -823,6 +823,10 @@ static double _strtodouble(char *str)
         _errormsg("error parsing double value");
     if ((val == HUGE_VAL || val == -HUGE_VAL) && errno == ERANGE)
         _errormsg("double value would cause overflow");
+    /* all callers store the value in a struct timeval, and xpoll()
+     * converts time-outs to an int number of milliseconds */
+    if (val > INT_MAX / 1000)
+        _errormsg("time value too large");
     return val;
 }
 
